@@ -146,6 +146,7 @@ def run_functions(eng, contracts, findings, tmo_ms, fn_jobs, solve_jobs, hard_li
     pending = list(contracts)
     running = {}
     results = []
+    retried = set()
     while pending or running:
         while pending and len(running) < fn_jobs:
             c = pending.pop(0)
@@ -153,6 +154,8 @@ def run_functions(eng, contracts, findings, tmo_ms, fn_jobs, solve_jobs, hard_li
             pid = os.fork()
             if pid == 0:
                 os.close(rfd)
+                if id(c) in retried:
+                    eng.quick_cli = True        # second attempt after a crash of the in-process solver
                 _fn_worker(eng, c, findings, tmo_ms, solve_jobs, wfd, sem)
             os.close(wfd)
             running[pid] = (c, rfd, time.time(), b"")
@@ -171,7 +174,12 @@ def run_functions(eng, contracts, findings, tmo_ms, fn_jobs, solve_jobs, hard_li
                 try:
                     results.append(pickle.loads(buf))
                 except Exception:
-                    results.append({"key": c.key, "error": "function worker died"})
+                    if id(c) not in retried:
+                        retried.add(id(c))
+                        pending.append(c)
+                    else:
+                        results.append({"key": c.key, "crashed": True,
+                                        "error": "function worker died twice (solver crash while generating obligations)"})
             elif now - start > hard_limit_s:
                 try:
                     os.killpg(os.getpgid(pid), signal.SIGKILL) if False else os.kill(pid, signal.SIGKILL)
@@ -295,7 +303,23 @@ def _main(a, t0):
     unsupported = []
     axioms, assumptions, externals, lemmas_used = set(), set(), set(), set()
     covers = []
+    ledger0_path = os.path.join(VERIF, "ledger", f"{prop}.json")
+    ledger0 = json.load(open(ledger0_path)) if os.path.exists(ledger0_path) else None
     for r in results:
+        if r.get("crashed"):
+            # the solver crashed twice while the obligations of this function were generated.  On source the
+            # ledger knows (unchanged code) that is a checker failure; on changed code the function is undecided
+            # and whatever the other parts of the check find is still reported.
+            key = r["key"]
+            k = f"{key[0]}:{key[1]}[{key[2]}]"
+            fi = eng.repo.func(key[0], key[1]) if key[0] != "<lemma>" else None
+            cur = fi.source_hash() if fi is not None else None
+            known = ledger0["functions"].get(k, {}).get("hash") if ledger0 else None
+            if cur is not None and known is not None and cur != known:
+                unsupported.append((k, "solver crash while generating obligations (source differs from the baseline)"))
+            else:
+                errors.append((key, r["error"]))
+            continue
         if "error" in r:
             errors.append((r["key"], r["error"]))
             continue
